@@ -17,7 +17,7 @@ from props import static_facts as sf
 
 SETUP_KEY = "api"
 PID = "C19"
-THEOREMS = ["C19_sigs_ok", "C19_zst_shape", "C19_zst_cond", "C19_zst_cond_complete", "C19_macros_no_caller_code_in_unsafe"]
+THEOREMS = ["C19_sigs_ok", "C19_zst_shape", "C19_zst_cond", "C19_zst_cond_complete", "C19_macros_no_caller_code_in_unsafe", "C19_unsize_coerces_raw_pointers"]
 
 
 def setup():
@@ -33,6 +33,8 @@ def _report():
                 "(\"anchor types are repr(align(N)) for Alignment<N>\", sb (aligned_types_ok aligned_types))]"),
         ("unsafe_gc_fns", "map (fun f => (fq f, \"unsafe\")) (filter (fun f => is_public_fn f && fs_unsafe f && returns_gc decls f) pub_fns)"),
         ("unsafe_metavars", "map (fun e => (fst (fst e) ++ \" $\" ++ snd (fst e) ++ \":\" ++ snd e, sb (metavar_harmless e))) unsafe_metavars"),
+        ("coerce_fns", "map (fun f => (fq f, sb (coerce_fn_ok f))) (coerce_fns pub_fns)"),
+        ("unsize_macro", "[(unsize_macro_text, sb (unsize_macro_ok unsize_macro_rules unsize_macro_matcher unsize_macro_text))]"),
         ("unknown", "map (fun s => (s, \"\")) GenSigs.unknown_items"),
     ]
     return sf.model_report("c19_report", evals)
@@ -76,6 +78,9 @@ def run(chk, tier, seed):
     offenders += ["macro_rules! %s is expanded inside the macro's own `unsafe` block (caller code runs in an unsafe context)" % k
                   for k, v in rep.get("unsafe_metavars", []) if v != "true"]
     chk.cov["model_unsafe_metavars"] = rep.get("unsafe_metavars", [])
+    offenders += ["%s: the coercion closure is not FnOnce(*const _) -> *const _ (reference coercions include deref coercion)" % k
+                  for k, v in rep.get("coerce_fns", []) if v != "true"]
+    offenders += ["unsize!: the transcriber is not the raw-pointer one: %s" % k for k, v in rep.get("unsize_macro", []) if v != "true"]
     offenders += ["unclassified syntax: " + k for k, _ in rep.get("unknown", [])]
     chk.cov["offending_items"] = offenders
 
